@@ -480,8 +480,12 @@ func CheckC07(e *Env) (int, error) {
 	envFile := filepath.Join(e.Scr, "envfile.bin")
 	os.WriteFile(envFile, []byte(strings.Repeat("fixed content, not random\n", 200)), 0644)
 	envRuns := 0
+	envVals := append([]string{"1", "true", "/dev/zero", envFile, "0"}, instr.EnvValueCandidates(e.RepoCopy())...)
 	for _, name := range envNames {
-		for _, val := range []string{"1", "true", "/dev/zero", envFile, "0"} {
+		for _, val := range envVals {
+			if val == name {
+				continue
+			}
 			for k := 0; k < 6; k++ {
 				for _, mode := range []string{"real", "preinit"} {
 					cp := mk(mode, 100000+envRuns)
